@@ -17,10 +17,12 @@ CLAIMED = {
     "C03": ("model_checking", "5 C03", "spec/OrcaConc.tla: all interleavings at lock-acquisition and handler-call granularity of 2-3 clients on main and batch ports sharing one lock table (single- and multi-reader, 1-2 stripes), invariants ReplyOK/Subset/RefEq, negative control without the wrapper. Binding: depth-first enumeration of the schedules of the REAL LockedOrca + L1L2/L1L2Batch code (instrumented lockers through the verif hook, gated handlers over fake memcached); every execution validated by TLC against spec/OrcaLin.tla (linearizability by silent Lin steps, final L1/L2 agreement)."),
     "C04": ("model_checking", "5 C04", "spec/ChunkNames.tla: TLC checks over an adversarial key alphabet (keys ending in -1, -meta, -, ...) that the derived backend names <key>-meta / <key>-<i> are injective and that the owner of an entry is recoverable. Binding: random sequential histories through the real chunked handler (all handler methods; value lengths 1, payload-1, payload, payload+1 ... 4*payload, 10*payload, thorough 999*payload; key lengths 1..250; key slices with and without spare capacity; adversarial key shapes) with the backend table decoded after every call; TLC validates replies and table against the reference map of spec/Memcache.tla (OrcaTrace, one tier: ReplyOK, RefEq, Stray entries); the direct handler runs as control."),
     "C05": ("model_checking", "5 C05", "spec/Chunked.tla: writers (set/add/replace, metadata then chunks), readers (get / get-and-touch incl. its metadata refresh) and evictions at backend-request granularity; TLC checks AllOrNothing over all interleavings (2 writers x 1-2 readers x up to 7 losses), negative control without the chunk-count rule. Binding: real chunked handlers on separate connections against a gated fake backend; the scheduler enumerates depth-first (then randomly, within a cap) which connection's next backend request is processed or which entry is lost, incl. all loss subsets/positions for a stored value of 0..6 chunks; every execution is replayed by TLC through the actions of Chunked.tla (ChunkedTrace: the handler's request sequence must be the specification's, a reader's result the specification's result; AllOrNothing decided on the returned bytes)."),
+    "C06": ("model_checking", "5 C06", "spec/Batched.tla: callers, batcher (receive / form / hand-off / write), backend, reader (routing by opaque) and recovery goroutine of one pooled connection as separate actions; TLC checks OneOutcome, NoCrash and (fairness) AllDone for 3-4 callers and batch sizes 1-3. Binding: (1) sequential histories through the real batched handler, incl. gete, validated against the reference map exactly like the direct handler (control); (2) 1..64 concurrent callers with caller-private keys and caller-distinct values over the batch size x delay grid, each caller's calls (all methods, multi-key gets with repeated keys and mixed quiet flags) forming a trace that TLC validates against the caller's private reference map (spec/OrcaTrace.tla): a foreign, missing or duplicated response has no explanation."),
     "C08": ("model_checking", "5 C08", "spec/Replies.tla states, for every request kind, outcome and protocol, the reply units that must be sent; spec/Conn.tla checks by TLC over all pipelines of <= 3 requests that positional (text) attribution and one-terminator-per-get follow; spec/ConnTrace.tla validates the reply units the harness's strict decoder observed on real connections for random pipelines (failing requests included) in every deployment shape x protocol."),
     "C09": ("model_checking", "5 C09", "Design model with the TTL classes {never, relative, 30 days, 30 days + 1 s, absolute future, absolute past} and clock ticks (invariant TTLOK: every tier entry carries the reference deadline); transitions replayed on the real stack over direct, chunked and batched handlers and the expiry of every serving backend entry compared with TLC's successor state; recorded histories with ticks validated by TLC."),
     "C10": ("model_checking", "5 C10", "spec/OrcaFault.tla: every program of <= 3-4 commands on both ports, every handler-call position, fault kinds {error status, connection lost before / after the request is applied}, a lost backend connection staying lost for the rest of the client connection; invariant Admissible (admissible-set oracle: no read returns a value from before an acknowledged write or delete; a miss is tolerated after a fault), liveness Terminates under weak fairness, negative control. Binding: for every scenario (pre-state, port, command incl. multi-key quiet gets) the harness places every fault kind at every backend request index on L1 and on L2 of the real stack (direct, chunked, batched handlers), records the affected request (deadline 4 s), the same connection afterwards and fresh connections before and after emptying L1; TLC validates the traces against spec/OrcaTrace.tla."),
     "C12": ("model_checking", "5 C12", "spec/OrcaConc.tla with a fault budget (error status, connection failure, panic at any handler call): invariants OneLock, LockFree, OnlyHolderRuns and deadlock freedom checked by TLC. Binding: every command kind x call position x fault kind x port x initial state and opposite-order multi-key gets are run on the real LockedOrca under the gate scheduler with competing connections; lock/unlock events from instrumented lockers validated by TLC (OrcaLin: exclusion, one lock per connection, nothing held after return, no stuck execution, no swallowed panic)."),
+    "C13": ("model_checking", "5 C13", "spec/Batched.tla with a cut budget: Cut(g) may sever a connection generation at any point (idle, after the hand-off, between replies); OneOutcome checked by TLC for 2-3 callers and 1-2 cuts; NoCrash is refuted by TLC (design finding: the batch is handed to the reader before it is written, so it can be written onto the re-established connection), recorded in the evidence. Binding: concurrent callers on the real pool under a seeded storm of connection cuts (close all pooled connections with and without a refusal period, cut inside a reply, cut before/after a request); run in a child process (a pool panic ends it); every caller's calls validated by TLC with at-least-once retry semantics against its private reference map, partial multi-key answers, process exit status, hangs and service after the storm checked."),
     "C18": ("model_checking", "5 C18", "spec/Metrics.tla: every interleaving of 2 observers (one step per atomic operation of ObserveHist, including the min/max CAS loops) with the reader's buffer swap over a ring of 2 and of 4 slots, and N-goroutine counters; invariants CountExact, MinLePctLeMax, PctIsObservation, CounterExact; two deliberately wrong variants refuted as negative controls. spec/Bucket.tla: bucket function and tables (regenerated from /repo at run time) proved monotone, in range and upper-bounding for all 0 <= n <= m < 2^63 by Apalache. Binding: real histograms and counters driven through the public API and the /metrics handler (sequential periods, concurrent observers with a polling reader), reports validated by TLC against spec/MetricsTrace.tla; the real getBucket evaluated at every table value and power of two +-1 and validated against Bucket.tla (TLC below 2^30, Apalache above); linked lzcnt against the portable source and the definition."),
     "C19": ("model_checking", "5 C19", "spec/Ketama.tla: a ring is a set of (point, label) pairs; TLC enumerates all small rings and checks totality, boundary and wrap-around behaviour, removal locality and order freedom. Binding: the real cluster.New / Continuum.Hash / Bucket (and end to end cluster.NewHandler over loopback TCP to fake nodes) for label sets of size 1..32 incl. sets whose ring points collide, all permutations for n <= 5 (7 thorough), every single-node removal, 10^4-10^5 keys and every ring boundary; answers rank-compressed and validated by TLC against spec/KetamaTrace.tla (Route, Order, Removal, Share)."),
 }
